@@ -156,4 +156,14 @@ LHAFileType lha_arch_exists(char *filename);
 
 int lha_arch_symlink(char *path, char *target);
 
+/**
+ * Check if the given path is itself a symbolic link (the link is not
+ * followed).
+ *
+ * @param path        Path to check.
+ * @return            Non-zero if a symbolic link exists at the path.
+ */
+
+int lha_arch_is_symlink(char *path);
+
 #endif /* ifndef LHASA_LHA_ARCH_H */
